@@ -17,6 +17,7 @@ import (
 	"sort"
 	"strings"
 	"testing"
+	"time"
 
 	"mvdan.cc/sh/v3/expand"
 	"pgregory.net/rapid"
@@ -322,7 +323,7 @@ func (o outcome) String() string {
 }
 
 func runInterp(script, dir string) outcome {
-	r := oracle.RunInterp(script, oracle.InterpOpts{Dir: dir})
+	r := oracle.RunInterp(script, oracle.InterpOpts{Dir: dir, Timeout: 60 * time.Second})
 	o := outcome{out: string(r.Stdout), status: r.Status}
 	switch {
 	case r.ParseErr != nil:
@@ -427,7 +428,7 @@ func check(c Case) (res vh.Result) {
 	if len(subs) == 0 {
 		return vh.Result{Skipped: true}
 	}
-	bres, err := oracle.Batch(scripts, oracle.Opts{Dir: dir})
+	bres, err := oracle.Batch(scripts, oracle.Opts{Dir: dir, Timeout: batchTimeout})
 	if err != nil {
 		return vh.Result{Skipped: true, Classes: []string{"infra:batch"}}
 	}
@@ -491,3 +492,8 @@ func equalFields(a, b []string) bool {
 var prop = vh.Prop[Case]{ID: "C23", Gen: gen, Check: check}
 
 func TestC23(t *testing.T) { vh.Run(t, prop) }
+
+// batchTimeout bounds one bash process evaluating a whole batch. It is
+// generous because a loaded machine makes every fork slow; sub-cases left
+// without a result are counted as infra:batch-aborted, never as a pass.
+const batchTimeout = 120 * time.Second
